@@ -1,5 +1,7 @@
 """C09 — Dask-backed signals give identical results, lazily, for any chunks or scheduler."""
 
+import contextlib
+
 import itertools
 import math
 
@@ -368,7 +370,10 @@ class Prop(PropBase):
                 def _pretask(self, key, dsk, state):
                     _Tasks.n += 1
 
-            with _Tasks():
+            # every fourth case: a Dask configuration whose automatic chunks are tiny (the user's `array.chunk-size`); helper
+            # arrays the library builds must not end up split along an axis it transforms
+            cfg = dask.config.set({"array.chunk-size": "256B"}) if c["seed"] % 4 == 1 else contextlib.nullcontext()
+            with cfg, _Tasks():
                 r_d = self._apply(c, zd)
             out["lazy_tasks"] = _Tasks.n            # tasks of ANY graph executed while the result was being built
             out["lazy_count"] = counter[0]
